@@ -348,7 +348,7 @@ func init() {
 		tp := genTransferBase(r, tier)
 		np := numPiecesOf(tp.Layout)
 		tp.K.RPCEnabled = true
-		tp.K.ResumeWriteInterval = r.Dur(200*time.Millisecond, 3*time.Second)
+		tp.K.ResumeWriteInterval = simrt.Pick(r, []time.Duration{50 * time.Millisecond, 200 * time.Millisecond, time.Second, 3 * time.Second})
 		tp.FaultsStop = r.Dur(20*time.Second, 60*time.Second)
 		tp.Bound = 30 * time.Second
 		tp.Liveness = false
@@ -367,6 +367,8 @@ func init() {
 		if r.Chance(0.4) {
 			tp.Webseeds = append(tp.Webseeds, WebseedSpec{Name: "w0", Mode: "honest", Honest: true})
 		}
+		tp.YieldP = simrt.Pick(r, []float64{0, 0.05, 0.2, 0.5})
+		tp.YieldSleep = simrt.Pick(r, []time.Duration{3 * time.Millisecond, 50 * time.Millisecond, 300 * time.Millisecond})
 		tp.API = &APISpec{Clients: r.Range(2, 5), Ops: r.Range(20, 120), RPC: r.Chance(0.6), Heavy: r.Chance(0.6), Gap: [2]time.Duration{0, r.Dur(time.Millisecond, time.Second)}}
 		p.Transfer = tp
 	}, Run: func(env *Env, p *Plan) { RunTransfer(env, p.Transfer) }})
@@ -428,6 +430,7 @@ func init() {
 		if tp.PreSeeded && r.Chance(0.6) {
 			ls.Flood = simrt.Pick(r, []int{60, 300})
 			ls.FloodFast = r.Chance(0.5)
+			ls.LateCancels = simrt.Pick(r, []int{0, 3, 12})
 		}
 		tp.Limits = ls
 		p.Transfer = tp
